@@ -22,6 +22,7 @@ def handle (st : DState) (req : Sexp) : DState × Sexp :=
   | .list (.atom "fn" :: rest) => (st, handleFn st.tree rest)
   | .list (.atom "exec" :: rest) => (st, handleExec st.tree rest)
   | .list (.atom "parse" :: rest) => (st, handleParse rest)
+  | .list (.atom "load" :: rest) => (st, handleLoad rest)
   | .list (.atom "cli" :: rest) => (st, handleCli rest)
   | .list [.atom "perrors"] => (st, handlePErrors st.tree)
   | .list (.atom "perror-display" :: rest) => (st, handlePErrorDisplay st.tree rest)
